@@ -274,6 +274,17 @@ def announce_and_block(path, secs=60, value=None):
     return ('ok', value)
 
 
+def announce_and_block_stubborn(path, secs=60):
+    """like announce_and_block, but the termination signal is ignored: only SIGKILL ends it"""
+    import signal
+    signal.signal(signal.SIGTERM, signal.SIG_IGN)
+    return announce_and_block(path, secs)
+
+
+def become_group_leader():
+    os.setpgrp()
+
+
 def announce_and_exit(path, code):
     with open(path, 'w') as fh:
         fh.write(str(os.getpid()))
